@@ -36,10 +36,17 @@ func c05eval(a *arithParsers, raw string, before []string, far int) (v interface
 				pan = fmt.Sprint(e)
 			}
 		}()
-		v, err = parsley.Evaluate(ctx, a.Root)
+		root := a.Root
+		if c05trimmedEnd {
+			root = a.RootTrimmedEnd
+		}
+		v, err = parsley.Evaluate(ctx, root)
 	}()
 	return v, err, pan, ctx.CallCount()
 }
+
+// c05trimmedEnd: the current job evaluates with the root that ends in a left-trimmed End() instead of Sentence(Trim(expr))
+var c05trimmedEnd bool
 
 var c05ws = []string{" ", " ", "\t", "\n", "\r\n", "\f", "  "}
 
@@ -49,6 +56,10 @@ func c05exec(j run.Job, a *run.Acc) {
 		// the grammar is constructed late in the life of the process: its Memoize indices are beyond 8 / 10 / 16 bits
 		burnParserIndices(n)
 		a.Count("jobs whose grammar is built after hundreds to 140000 other memoized parsers", 1)
+	}
+	c05trimmedEnd = j.Param("trimmedend", 0) == 1
+	if c05trimmedEnd {
+		a.Count("jobs whose root ends in LeftTrim(End()) instead of Sentence(Trim(expr))", 1)
 	}
 	baseFirst := j.Param("basefirst", 0) == 1
 	ar := newArithOrder(baseFirst)
@@ -231,14 +242,14 @@ func init() {
 				if i%4 == 3 {
 					burn = []int{200, 520, 1100, 70000, 140000}[(i/4)%5]
 				}
-				jobs = append(jobs, run.Job{Family: "generated", Seed: seed*100000 + int64(i), N: per, P: map[string]int{"depth": depth, "basefirst": i % 2, "burn": burn}})
-				jobs = append(jobs, run.Job{Family: "mutated", Seed: seed*100000 + 50000 + int64(i), N: per, P: map[string]int{"depth": depth - 2, "basefirst": (i / 2) % 2, "burn": burn}})
+				jobs = append(jobs, run.Job{Family: "generated", Seed: seed*100000 + int64(i), N: per, P: map[string]int{"depth": depth, "basefirst": i % 2, "burn": burn, "trimmedend": (i / 2) % 2}})
+				jobs = append(jobs, run.Job{Family: "mutated", Seed: seed*100000 + 50000 + int64(i), N: per, P: map[string]int{"depth": depth - 2, "basefirst": (i / 2) % 2, "burn": burn, "trimmedend": i % 2}})
 			}
 			return jobs
 		},
 		Exec: c05exec,
 		Finish: func(tier string, a *run.Acc, cov map[string]any) string {
-			cov["rule"] = "harness grammar from library parts: expr -> expr (+|-) term | term, term -> term (*|/) factor | factor, factor -> Integer | ( expr ), all memoized, tokens left-trimmed, Sentence(Trim(expr)), half of the jobs with the non-recursive alternative listed first (term | expr op term); " +
+			cov["rule"] = "harness grammar from library parts: expr -> expr (+|-) term | term, term -> term (*|/) factor | factor, factor -> Integer | ( expr ), all memoized, tokens left-trimmed, root Sentence(Trim(expr)) or - half of the jobs - SeqOf(expr, LeftTrim(End(), WsSpacesNl)).Bind(Select(0)), half of the jobs with the non-recursive alternative listed first (term | expr op term); " +
 				"a quarter of the jobs construct the grammar after 200-140000 other memoized parsers, one case in 25 is placed after a file of 64 KiB ... 2^40 bytes; binary interpreter on int64 reporting division by zero at the operator node. 'generated': expressions printed from a random AST (signed decimal/hex/octal literals, nesting, free whitespace incl. LF/CRLF/FF) " +
 				"so value, first division by zero in evaluation order and its line:column are known by construction. 'mutated': 1-2 byte edits; an independent recursive-descent recogniser (C08 integer scanner) decides " +
 				"well-formedness, value and error position; ill-formed => error required, never a panic. non-trivial = value/err compared on an input with at least one operator, or an ill-formed input rejected"
